@@ -53,6 +53,10 @@ def long_cases(tier, rng):
         for _ in range(4 if tier == "quick" else 20):
             out.append(gen.rand_bytes(rng, n))
             out.append(gen.rand_bytes(rng, n // 2) + b"@" + gen.rand_bytes(rng, n // 2))
+    # three inputs larger than the default 8 MiB stack (a scanner must not copy its input onto the stack or recurse per byte)
+    big = 9 * 1024 * 1024 if tier == "quick" else 17 * 1024 * 1024
+    out += [b"a" * big, b"x@" + b"a" * big, (b"ab." * (big // 3)) + b"com", b'"' + b"a" * big + b'"@a.bc', "é".encode() * (big // 2) + b"@a.bc",
+            b"x@" + "é".encode() * (big // 2)]
     if tier == "quick":
         # a few inputs well beyond 64 KiB also in the quick tier (int/size_t width, buffer-size assumptions)
         for u in (b"a.", b"1:", "а".encode(), b'"a".', b"\xff", b"a"):
